@@ -170,7 +170,10 @@ def check_c12_canon(m, result, old_fp):
         if Counter(ekey(m, u, v, d) for u, v, d in m.edges(data=True)) != Counter(ekey(result, u, v, d) for u, v, d in result.edges(data=True)):
             return {"what": "multiset of bonds (endpoint attributes, bond attributes) changed", "input": _graph_json(m)}
     if n <= SHADOW_MAX_N:
-        again = canon(m)
+        try:
+            again = canon(m)
+        except Exception as e:
+            return {"what": "second canonicalize call on the same object raised", "exception": f"{type(e).__name__}: {e}"[:200], "input": _graph_json(m)}
         _mon("c12_canon_repeat")
         if fingerprint(again) != fingerprint(result):
             return {"what": "second canonicalize call on the same object gave a different result", "input": _graph_json(m)}
@@ -344,7 +347,10 @@ def check_c12_ser(m, result, old_fp):
     now = fingerprint(m, ignore_explored_false=True)
     if now != old_fp:
         return {"what": "serialize_molecule altered its argument beyond the scratch flag", "before": repr(old_fp)[:500], "after": repr(now)[:500]}
-    again = S.orig["serialize_molecule"](m)
+    try:
+        again = S.orig["serialize_molecule"](m)
+    except Exception as e:
+        return {"what": "second serialize call on the same object raised", "exception": f"{type(e).__name__}: {e}"[:200], "first_result": result[:200]}
     if again != result:
         return {"what": "second serialize call on the same object gave a different string", "s1": result[:300], "s2": again[:300]}
     if fingerprint(m, ignore_explored_false=True) != old_fp:
@@ -506,7 +512,10 @@ def check_c16(m, random_seed, result, old_fp):
     if m.number_of_edges() > 1 and nx.density(m) != 1:
         if {frozenset(e) for e in m.edges()} == {frozenset(e) for e in result.edges()}:
             return {"what": "edge set unchanged although >= 2 bonds and not complete", "seed": random_seed, "input": _graph_json(m)}
-    again = S.orig["permute_molecule"](m, random_seed)
+    try:
+        again = S.orig["permute_molecule"](m, random_seed)
+    except Exception as e:
+        return {"what": "second permute_molecule call with the same seed raised", "exception": f"{type(e).__name__}: {e}"[:200]}
     if fingerprint(again) != fingerprint(result):
         return {"what": "same seed, different result", "seed": random_seed}
     return None
